@@ -1,25 +1,37 @@
 """C08 -- fit statistics and evidence follow their definitions on unmasked pixels only."""
-import itertools, math
+import copy, itertools, math
 from fractions import Fraction
 import numpy as np
-from harness.common import cz, cq, cnat, cbool, clist, ctup, copt, cres, call_res, import_aa, frac
+from harness.common import cz, cnat, cbool, clist, ctup, copt, cres, call_res, import_aa, frac
 
 ID = "C08"
 GEN = ["fit"]
 GEN_FILES = ["Gen/Gen_fit.v"]
 PROPS = "Props/C08.v"
-COQ_CHECK = ("Model.C08", "check")
-COQ_FALLBACK = ("Model.C08", "spec_ok")
-COQ_IMPORTS = ""
+COQ_CHECK = ("Model.C08x", "check")
+COQ_FALLBACK = ("Model.C08x", "spec_okx")
 SHARD = 150
 RULE = ("every mask of every shape with H*W <= 4 (quick) / <= 6 (thorough) x {masked-native with use_mask_in_fit, slim without} x "
         "{no sky, sky offset} x {no inversion, all objects regularized, partially regularized, none regularized} (the largest "
         "shapes of a tier: no inversion / partially regularized only), values "
         "random dyadic (noise in {1/4..8} on fitted pixels, garbage incl. 1e30 / 0 / negative noise in masked pixels), run "
         "through FitImaging / FitDataset subclasses on aa.Imaging datasets and a real AbstractInversion subclass; plus random "
-        "larger shapes, every linear-object structure with <= 3 objects of 1-2 parameters (inversion terms), direct calls of "
-        "every fit_util function on ndarrays / Array2D, and the three composition formulas on dyadic scalars. A case is "
-        "non-trivial unless it is a bare composition call; distinct = distinct JSON input.")
+        "larger shapes (anisotropic pixel scales, shifted origins), every linear-object structure with <= 3 objects of 1-2 "
+        "parameters (inversion terms; real AbstractMapper and plain LinearObj objects in every order), direct calls of "
+        "every fit_util function on ndarrays / Array2D, and the three composition formulas on dyadic scalars.  HISTORIES on one "
+        "dataset / one fit object: read, re-read, in-place edits by the user (data, noise map, model data, mask pixels) and "
+        "re-read, a second fit object on the same dataset (other model, other sky), a second dataset on the same mask object, "
+        "with the caller's arrays fingerprinted after every read; inversion histories (the same linear objects, settings and "
+        "preloads objects reused by several inversions, re-reads, fingerprints).  DERIVED inputs: datasets from apply_mask / "
+        "trimmed_after_convolution_from, arrays from arithmetic, views, copies, .native / .slim round trips.  EXTREMES: common "
+        "power-of-two scales 2^-40..2^40 of data / noise / regularization, exact zero residuals, zero data, constant images.  "
+        "NOISE COVARIANCE: slim fits on datasets with a dyadic positive definite covariance matrix (given directly or reduced by "
+        "apply_mask; diagonal = noise^2 now and then), two fits per dataset, and direct calls of "
+        "chi_squared_with_noise_covariance_from.  INTERFEROMETER: FitInterferometer on real Interferometer datasets of 1-6 "
+        "visibilities (both use_mask_in_fit settings, with / without inversion), read, in-place edits, re-read, second fit object; "
+        "the complex fit_util functions on ndarrays.  Inversions with a Preloads object carrying the true regularization matrix / "
+        "log-determinant. "
+        "A case is non-trivial unless it is a bare composition call; distinct = distinct JSON input.")
 EXHAUSTIVE = {
     "quick": "all masks of all shapes with H*W <= 4 x 2 modes x 2 sky settings x inversion kinds (4 kinds for H*W <= 3; none / "
              "partially regularized for H*W = 4); all object structures (params in {1,2}, regularized or not) of length <= 3",
@@ -27,20 +39,26 @@ EXHAUSTIVE = {
                 "none / partially regularized for H*W in {5, 6}); all object structures (params in {1,2}, regularized or not) "
                 "of length <= 4",
 }
-TRUSTED = ["Gallina model coq/Model/C08.v of fit_util.py / fit_dataset.py / fit_imaging.py / the evidence terms of "
-           "inversion/abstract.py, hand-written and tied to /repo by this correspondence run; only the three composition formulas "
+TRUSTED = ["Gallina models coq/Model/C08.v, C08x.v of fit_util.py / fit_dataset.py / fit_imaging.py / fit_interferometer.py / the "
+           "evidence terms of inversion/abstract.py, hand-written and tied to /repo by this correspondence run; only the three composition formulas "
            "(log_likelihood_from, log_likelihood_with_regularization_from, log_evidence_from) are regenerated from fit_util.py by "
            "py2v/gen_fit.py (fail-closed) into coq/Gen/Gen_fit.v on every run",
-           "correspondence harness harness/c08.py; native 2-D arrays are passed to the model flattened row-major",
+           "correspondence harness harness/c08.py; native 2-D arrays are passed to the model flattened row-major; the model's "
+           "inputs are snapshots of the live arrays taken immediately before a read",
            "QOps execution device: finite ln table supplied per case (ln of 2*pi*noise^2 and of the two determinants, "
            "computed with math.log); ln-dependent outputs are compared under 1e-9 relative tolerance inside Coq and again in "
            "Python against math.log; never used in a theorem",
-           "oracles: numpy.linalg.cholesky / scipy splu log-determinants = ln det (model: lnT (det M)); numpy element-wise "
-           "arithmetic, np.sum, boolean-mask selection, np.delete, scipy block_diag"]
+           "oracles: numpy.linalg.cholesky / scipy splu log-determinants = ln det (model: lnT (det M)); np.linalg.inv returns an "
+           "inverse (the returned matrix is part of the case; C_inv . C = I is checked within 1e-9 inside Coq, chi-squared again in "
+           "Python against the exact rational solution of C x = r); numpy element-wise arithmetic, np.sum, boolean-mask selection, "
+           "np.delete, scipy block_diag, @ on 1-D / 2-D arrays",
+           "IEEE signed zeros are not modelled: a pixel with a -0.0 noise value (derived arrays only) is unobserved for the sign of "
+           "an infinite signal-to-noise value"]
 ASSUMPTIONS = ["theorems are over the reals (any function in the ln slot); floating-point rounding is not modelled: inputs are "
                "dyadic so that every compared double operation except ln, x/3-style divisions is exact",
-               "noise_covariance_matrix is None (the covariance chi-squared path is outside the property)",
-               "noise is positive on fitted pixels (the property's quantifier); masked pixels carry arbitrary finite values"]
+               "noise is positive on fitted pixels (the property's quantifier); masked pixels carry arbitrary finite values",
+               "noise covariance: slim storage, at least one fitted pixel, symmetric positive definite dyadic matrices; the "
+               "covariance matrix and an inversion's inputs are not edited after a read (cached_property by design)"]
 
 # ----------------------------------------------------------------------------- numbers
 TWO_PI = 2 * np.pi
@@ -50,7 +68,21 @@ G_NOISE = [0.0, -4.0, 2.0 ** 40, 0.25, -0.5]
 G_MODEL = [1e30, -3.0, 0.0, 1048576.0]
 SKIES = [0.5, -1.25, 2.0]
 BIG = Fraction(10) ** 40
+# (pixel_scales, origin) of the mask: the fit never looks at them
+GEOMS = [(1.0, (0.0, 0.0)), ((2.0, 0.5), (1.0, -3.0)), (0.05, (0.0, 0.0)), ((0.25, 3.0), (-7.5, 2.0))]
+ROUTES = {"slim": ["fresh", "arith", "view", "copy", "native_slim", "from_native2d", "apply_mask", "trimmed"],
+          "native": ["fresh", "arith", "view", "copy", "native_of_slim", "native_of_native", "trimmed"],
+          "native_nomask": ["fresh", "arith", "view", "copy"]}
+READS = ["data", "residual", "normres", "chimap", "chi2", "redchi2", "nn", "ll", "llreg", "evidence", "fom", "rff", "snr"]
 
+def hz(n):
+    """Coq integer literal; hexadecimal for large values (decimal number notations are quadratic in the digits)"""
+    n = int(n)
+    t = hex(abs(n)) if abs(n) >= 4096 else str(abs(n))
+    return f"(-{t})" if n < 0 else t
+def cq(x):
+    f = Fraction(x)
+    return f"(Qmake {hz(f.numerator)} {hz(f.denominator)})"
 def fq(x):
     x = float(x)
     if math.isnan(x): return BIG * 7
@@ -59,6 +91,15 @@ def fq(x):
 def fopt(x):
     x = float(x)
     return None if not math.isfinite(x) else Fraction(x)
+def cx(x):
+    """a double as an [xval]: finite / +inf / -inf / nan"""
+    x = float(x)
+    if math.isnan(x): return "XNaN"
+    if math.isinf(x): return "XPInf" if x > 0 else "XNInf"
+    return f"(XFin {cq(Fraction(x))})"
+def xl(xs): return clist([cx(x) for x in xs])
+def cpair(z): return ctup([cq(fq(z.real)), cq(fq(z.imag))])
+def cpl(zs): return clist([cpair(complex(z)) for z in zs])
 def ql(xs): return clist([cq(fq(x)) for x in xs])
 def qm(m): return clist([ql(r) for r in m])
 def qol(xs): return clist([copt(x, cq) for x in xs])
@@ -75,9 +116,17 @@ def ln_table(noises, dets=()):
         if d > 0: keys.add(Fraction(d))
     out = []
     for k in sorted(keys):
-        out.append((k, Fraction(math.log(k))))
+        out.append((k, Fraction(flog(k))))
     return out
+def flog(k):
+    """math.log of a positive Fraction of any magnitude"""
+    k = Fraction(k)
+    try:
+        return math.log(k)
+    except (OverflowError, ValueError):
+        return math.log(k.numerator) - math.log(k.denominator)
 def ctbl(t): return clist([ctup([cq(a), cq(b)]) for a, b in t])
+NOISE_SCALES = [-30, -27, -8, 0, 11, 30]
 
 def fdet(m):
     """exact determinant (Fractions), Gaussian elimination"""
@@ -92,6 +141,9 @@ def fdet(m):
             for k in range(c, n): m[r][k] -= f * m[c][k]
     return d
 
+# shared by every case of a generated case file: 2*pi as a double
+COQ_IMPORTS = f"Definition TP : Q := {cq(Fraction(TWO_PI))}."
+
 # ----------------------------------------------------------------------------- generators
 def rnd_val(rng): return rng.randint(-20, 20) / 4.0
 def rnd_nonzero(rng):
@@ -103,8 +155,9 @@ def spd(rng, n):
     g = [[rng.randint(-2, 2) for _ in range(n)] for _ in range(n)]
     return [[float(sum(g[k][i] * g[k][j] for k in range(n)) + (rng.randint(1, 2) if i == j else 0)) for j in range(n)] for i in range(n)]
 
-def gen_inv(rng, kind, structure=None):
-    """kind: 'all' | 'partial' | 'none' regularized"""
+def gen_inv(rng, kind, structure=None, scales=(0, 0, 0), mappers=None):
+    """kind: 'all' | 'partial' | 'none' regularized; scales = binary exponents of (H blocks, F, s);
+    mappers: per object, whether it is a real AbstractMapper (else a plain LinearObj)"""
     if structure is None:
         k = rng.randint(1, 3)
         ps = [rng.randint(1, 2) for _ in range(k)]
@@ -117,25 +170,45 @@ def gen_inv(rng, kind, structure=None):
                 if 0 < sum(rs) < k: break
         structure = list(zip(ps, rs))
     tot = sum(p for p, _ in structure)
-    blocks = [spd(rng, p) if r else [] for p, r in structure]
-    # now and then a non-zero block on an unregularized object: the code must ignore it
-    return {"objs": [[int(p), int(r)] for p, r in structure], "blocks": blocks, "F": spd(rng, tot),
-            "s": [float(rng.randint(-3, 3)) for _ in range(tot)]}
+    eh, ef, es = scales
+    sc = lambda M, e: [[x * 2.0 ** e for x in r] for r in M]
+    blocks = [sc(spd(rng, p), eh) if r else [] for p, r in structure]
+    iv = {"objs": [[int(p), int(r)] for p, r in structure], "blocks": blocks, "F": sc(spd(rng, tot), ef),
+          "s": [float(rng.randint(-3, 3)) * 2.0 ** es for _ in range(tot)]}
+    if mappers is None and rng.random() < 0.5: mappers = [rng.randint(0, 1) for _ in structure]
+    if mappers is not None: iv["mappers"] = [int(b) for b in mappers]
+    return iv
 
-def gen_fit(rng, h, w, maskbits, mode, sky, invkind, via):
+def gen_fit(rng, h, w, maskbits, mode, sky, invkind, via, route="fresh", geom=0, scale=(0, 0), special=None):
+    """scale = binary exponents (data / model / sky, noise) common to the whole image, so that every double
+    operation stays exact; special: None | 'zero_residual' | 'zero_data' | 'constant'"""
     n = h * w
+    ed, en = scale
+    zero_masked = route in ("native_of_slim", "native_of_native", "trimmed", "apply_mask")
     d, nz, m = [], [], []
+    cd, cn, cm = rnd_val(rng), rng.choice(NOISE), rnd_val(rng)
     for i in range(n):
         if maskbits[i]:
-            d.append(rng.choice(G_DATA)); nz.append(rng.choice(G_NOISE)); m.append(rng.choice(G_MODEL))
+            d.append(rng.choice(G_DATA) * (2.0 ** ed if sky != 0.0 else 1.0))   # data - sky stays exact
+            nz.append(rng.choice([g for g in G_NOISE if g >= 0.0] if zero_masked else G_NOISE))
+            m.append(rng.choice(G_MODEL))
         else:
             # data - sky == 0 now and then (zero denominator of the residual flux fraction)
-            d.append(sky if rng.random() < 0.08 else rnd_val(rng)); nz.append(rng.choice(NOISE)); m.append(rnd_val(rng))
+            dv = sky if rng.random() < 0.08 else rnd_val(rng)
+            nv = rng.choice(NOISE); mv = rnd_val(rng)
+            if special == "constant": dv, nv, mv = cd, cn, cm
+            if special == "zero_data": dv = sky
+            if special == "zero_residual": mv = dv - sky
+            d.append(dv * 2.0 ** ed); nz.append(nv * 2.0 ** en); m.append(mv * 2.0 ** ed)
+    sky = sky * 2.0 ** ed
     if sky != 0.0:   # keep the subtraction exact on garbage values
-        d = [(-4096.0 if (maskbits[i] and abs(x) > 1e20) else x) for i, x in enumerate(d)]
+        d = [(-4096.0 * 2.0 ** ed if (maskbits[i] and abs(x) > 1e20 * 2.0 ** ed) else x) for i, x in enumerate(d)]
     inv = None if invkind == "noinv" else gen_inv(rng, invkind)
-    return {"op": "fit", "shape": [h, w], "mask": [int(b) for b in maskbits], "mode": mode, "sky": sky,
-            "data": d, "noise": nz, "model": m, "inv": inv, "via": via}
+    out = {"op": "fit", "shape": [h, w], "mask": [int(b) for b in maskbits], "mode": mode, "sky": sky,
+           "data": d, "noise": nz, "model": m, "inv": inv, "via": via}
+    if route != "fresh": out["route"] = route
+    if geom: out["geom"] = geom
+    return out
 
 def shapes_upto(nmax):
     return [(h, w) for h in range(1, nmax + 1) for w in range(1, nmax + 1) if h * w <= nmax]
@@ -143,6 +216,118 @@ def shapes_upto(nmax):
 def structures(maxlen):
     for k in range(0, maxlen + 1):
         for st in itertools.product([(1, 0), (1, 1), (2, 0), (2, 1)], repeat=k): yield list(st)
+
+def rnd_fit(rng, vias, **kw):
+    h, w = rng.randint(1, 5), rng.randint(1, 5)
+    p = rng.choice([0.0, 0.2, 0.5, 0.8])
+    mode = kw.pop("mode", None) or rng.choice(["native", "native", "slim", "slim", "native_nomask"])
+    bits = [1 if (rng.random() < p and mode != "native_nomask") else 0 for _ in range(h * w)]
+    sky = kw.pop("sky", None)
+    if sky is None: sky = rng.choice([0.0] + SKIES)
+    invkind = kw.pop("invkind", None) or rng.choice(["noinv", "noinv", "all", "partial", "none"])
+    via = "imaging" if sky != 0.0 else rng.choice(vias)
+    return gen_fit(rng, h, w, bits, mode, sky, invkind, via, **kw)
+
+def gen_hist(rng):
+    """a history on ONE dataset / ONE fit object (see run_hist)"""
+    base = rnd_fit(rng, ["imaging", "imaging", "fitdataset"], route=rng.choice(["fresh", "fresh", "view", "arith"]),
+                   geom=rng.randint(0, 3))
+    if base["mode"] == "native_nomask": base["route"] = "fresh" if base.get("route") == "view" else base.get("route", "fresh")
+    h, w = base["shape"]; n = h * w
+    bits = base["mask"]
+    native = base["mode"] != "slim"
+    ed = 0
+    edits = []
+    unm = [i for i in range(n) if not bits[i]]
+    msk = [i for i in range(n) if bits[i]]
+    # user edits of stored values (positions are flat native indices; in slim mode: positions among the unmasked)
+    for _ in range(rng.randint(1, 3)):
+        which = rng.choice(["data", "noise", "model"])
+        pool = list(range(n)) if native else list(range(len(unm)))
+        if not pool: break
+        pos = rng.choice(pool)
+        masked_pos = native and bits[pos]
+        if which == "noise": val = rng.choice(G_NOISE) if masked_pos else rng.choice(NOISE)
+        else: val = rnd_val(rng)
+        edits.append([which, pos, val])
+    maskflip = None
+    if base["mode"] == "native" and rng.random() < 0.6:
+        pos = rng.randrange(n)
+        maskflip = pos
+        if bits[pos]:    # unmasking a pixel: give it in-scope values first
+            edits += [["data", pos, rnd_val(rng)], ["noise", pos, rng.choice(NOISE)], ["model", pos, rnd_val(rng)]]
+    bits = list(bits)
+    if maskflip is not None: bits[maskflip] = 1 - bits[maskflip]      # the mask after the edit
+    model2 = [(rng.choice(G_MODEL) if (bits[i] and native) else rnd_val(rng)) for i in range(n)]
+    sky2 = rng.choice([0.0] + SKIES) if base["via"] == "imaging" else 0.0
+    if sky2 != 0.0: base["data"] = [(-4096.0 if abs(x) > 1e20 else x) for x in base["data"]]   # data - sky2 stays exact
+    twin = {"data": [(rng.choice(G_DATA[1:]) if (bits[i] and native) else rnd_val(rng)) for i in range(n)],
+            "noise": [(rng.choice(G_NOISE) if (bits[i] and native) else rng.choice(NOISE)) for i in range(n)]}
+    order = READS[:]; rng.shuffle(order)
+    # the user also changes the background sky level of the (shared) DatasetModel object between two reads
+    sky_edit = rng.choice([None, None] + SKIES + [0.0]) if base["via"] == "imaging" else None
+    if sky_edit: base["data"] = [(-4096.0 if abs(x) > 1e20 else x) for x in base["data"]]
+    return {"op": "hist", "base": base, "edits": edits, "maskflip": maskflip, "model2": model2, "sky2": sky2,
+            "twin": twin, "order": order, "sky_edit": sky_edit}
+
+def gen_invhist(rng):
+    k = rng.randint(1, 3)
+    st = [(rng.randint(1, 2), rng.randint(0, 1)) for _ in range(k)]
+    mappers = [rng.randint(0, 1) for _ in st]
+    a = gen_inv(rng, None, st, mappers=mappers)
+    b = gen_inv(rng, None, st, mappers=mappers)
+    st2 = [(p, rng.randint(0, 1)) for p, _ in st]
+    c = gen_inv(rng, None, st2, mappers=mappers)
+    return {"op": "invhist", "a": a, "F2": b["F"], "s2": b["s"], "c": c}
+
+def unit_lower(rng, n):
+    L = [[0.0] * n for _ in range(n)]
+    for i in range(n):
+        L[i][i] = 1.0
+        for j in range(i): L[i][j] = rng.choice([-1.0, -0.5, 0.0, 0.0, 0.5, 1.0])
+    return L
+def gen_cov_matrix(rng, n, noise=None):
+    """symmetric positive definite, dyadic, with a dyadic inverse: L D L^T (L unit lower triangular);
+    with probability 1/4 the diagonal matrix of the squared noise values (no correlation)"""
+    if noise is not None and rng.random() < 0.25:
+        return [[(noise[i] ** 2 if i == j else 0.0) for j in range(n)] for i in range(n)]
+    L = unit_lower(rng, n); D = [rng.choice([0.25, 0.5, 1.0, 2.0, 4.0]) for _ in range(n)]
+    return [[sum(L[i][k] * D[k] * L[j][k] for k in range(n)) for j in range(n)] for i in range(n)]
+
+def gen_cov(rng):
+    """a slim fit on a dataset with a noise covariance matrix, given directly or through apply_mask of a full dataset"""
+    h, w = rng.randint(1, 4), rng.randint(1, 3)
+    p = rng.choice([0.0, 0.3, 0.6])
+    bits = [1 if rng.random() < p else 0 for _ in range(h * w)]
+    bits[rng.randrange(h * w)] = 0      # at least one fitted pixel (an empty covariance matrix cannot be inverted)
+    route = rng.choice(["direct", "direct", "apply_mask"])
+    sky = rng.choice([0.0] + SKIES)
+    base = gen_fit(rng, h, w, bits, "slim", sky, rng.choice(["noinv", "noinv", "all", "partial"]), "imaging",
+                   route="apply_mask" if route == "apply_mask" else "fresh", geom=rng.randint(0, 3))
+    n = h * w if route == "apply_mask" else bits.count(0)
+    noise = base["noise"] if route == "apply_mask" else [x for x, b in zip(base["noise"], bits) if not b]
+    return {"op": "cov", "base": base, "C": gen_cov_matrix(rng, n, noise), "model2": [rnd_val(rng) for _ in range(h * w)]}
+
+def cval(rng): return complex(rnd_val(rng), rnd_val(rng))
+def gen_vis(rng):
+    n = rng.randint(1, 6)
+    e = rng.choice([0, 0, 0, -40, 40]); en = rng.choice([0, 0, 0] + NOISE_SCALES)
+    z = lambda c: [c.real * 2.0 ** e, c.imag * 2.0 ** e]
+    special = rng.choice([None, None, None, "zero_residual", "zero_data"])
+    d = [cval(rng) for _ in range(n)]
+    if special == "zero_data": d = [0j] * n
+    m = [cval(rng) for _ in range(n)] if special != "zero_residual" else list(d)
+    edits = []
+    for _ in range(rng.randint(1, 2)):
+        which = rng.choice(["data", "noise", "model"]); k = rng.randrange(n)
+        v = [rng.choice(NOISE) * 2.0 ** en, rng.choice(NOISE) * 2.0 ** en] if which == "noise" else z(cval(rng))
+        edits.append([which, k, v])
+    order = ["residual", "normres", "chimap", "chi2", "redchi2", "nn", "ll", "llreg", "evidence", "fom", "snr"]
+    rng.shuffle(order)
+    return {"op": "vis", "use_mask": bool(rng.randint(0, 1)), "data": [z(c) for c in d], "model": [z(c) for c in m],
+            "noise": [[rng.choice(NOISE) * 2.0 ** en, rng.choice(NOISE) * 2.0 ** en] for _ in range(n)],
+            "inv": None if rng.random() < 0.5 else gen_inv(rng, rng.choice(["all", "partial", "none"])),
+            "edits": edits, "model2": [z(cval(rng)) for _ in range(n)], "order": order}
 
 def gen_inputs(tier, rng):
     big = tier == "thorough"
@@ -157,29 +342,57 @@ def gen_inputs(tier, rng):
                         via = vias[i % 3] if sky == 0.0 else "imaging"
                         s = 0.0 if sky == 0.0 else rng.choice(SKIES)
                         yield gen_fit(rng, h, w, bits, mode, s, invkind, via)
-    for _ in range(2000 if big else 300):
-        h, w = rng.randint(2, 5), rng.randint(2, 5)
-        p = rng.choice([0.0, 0.2, 0.5, 0.8])
-        mode = rng.choice(["native", "native", "slim", "slim", "native_nomask"])
-        bits = [1 if (rng.random() < p and mode != "native_nomask") else 0 for _ in range(h * w)]
-        sky = rng.choice([0.0] + SKIES)
-        yield gen_fit(rng, h, w, bits, mode, sky,
-                      rng.choice(["noinv", "all", "partial", "none"]), "imaging" if sky != 0.0 else rng.choice(vias))
+    for _ in range(1200 if big else 100):
+        yield rnd_fit(rng, vias, geom=rng.randint(0, 3))
+    # ---- histories on one dataset / one fit object; inversion histories
+    for _ in range(600 if big else 80): yield gen_hist(rng)
+    for _ in range(200 if big else 30): yield gen_invhist(rng)
+    # ---- derived datasets / arrays
+    for _ in range(800 if big else 100):
+        mode = rng.choice(["native", "slim", "slim", "native_nomask"])
+        yield rnd_fit(rng, vias, mode=mode, route=rng.choice(ROUTES[mode][1:]), geom=rng.randint(0, 3))
+    # ---- extremes: common power-of-two scales, exact zeros / ties / constant images
+    for _ in range(600 if big else 80):
+        yield rnd_fit(rng, vias, scale=(rng.choice([-40, -27, -9, 0, 13, 40]), rng.choice(NOISE_SCALES)),
+                      special=rng.choice([None, None, "zero_residual", "zero_data", "constant"]), geom=rng.randint(0, 3))
     for st in structures(4 if big else 3):
         for _ in range(3 if big else 2):
             yield {"op": "inv", "inv": gen_inv(rng, None, st), "junk": bool(rng.randint(0, 1))}
-    for _ in range(1500 if big else 250):
-        yield {"op": "inv", "inv": gen_inv(rng, rng.choice(["all", "partial", "partial", "none"])), "junk": bool(rng.randint(0, 1))}
-    for _ in range(1500 if big else 250):
+    for _ in range(1000 if big else 80):
+        yield {"op": "inv", "inv": gen_inv(rng, rng.choice(["all", "partial", "partial", "none"])), "junk": bool(rng.randint(0, 1)),
+               "preload": rng.random() < 0.3}
+    for _ in range(300 if big else 40):
+        e = rng.choice([-40, -20, 0, 20, 40])
+        yield {"op": "inv", "inv": gen_inv(rng, rng.choice(["all", "partial", "partial"]),
+                                           scales=(e + rng.choice([-30, -8, 0]), e, rng.choice([-40, -7, 0, 9, 40]))), "junk": False}
+    for _ in range(1000 if big else 120):
         two_d = rng.random() < 0.5
         h, w = (rng.randint(1, 4), rng.randint(1, 4)) if two_d else (1, rng.randint(1, 9))
         n = h * w
         bits = [1 if rng.random() < rng.choice([0.0, 0.3, 0.7]) else 0 for _ in range(n)]
+        e = rng.choice([0, 0, 0, -40, 40])
         yield {"op": "util", "shape": [h, w] if two_d else [n], "mask": bits,
-               "data": [(0.0 if rng.random() < 0.1 else rnd_val(rng)) for _ in range(n)],
-               "noise": [rng.choice(NOISE) for _ in range(n)], "model": [rnd_val(rng) for _ in range(n)],
+               "data": [(0.0 if rng.random() < 0.1 else rnd_val(rng) * 2.0 ** e) for _ in range(n)],
+               "noise": [rng.choice(NOISE) for _ in range(n)], "model": [rnd_val(rng) * 2.0 ** e for _ in range(n)],
                "wrap": bool(two_d and rng.random() < 0.4)}
-    for _ in range(300 if big else 100):
+    # ---- arbitrary preloaded regularization matrices / log-determinants
+    for _ in range(300 if big else 40):
+        iv = gen_inv(rng, rng.choice(["all", "partial", "partial", "none"]))
+        tot = len(iv["s"])
+        yield {"op": "invp", "inv": iv, "pre": {"H": spd(rng, tot) if rng.random() < 0.8 else None,
+                                                 "ldr": rng.randint(-40, 40) / 8.0 if rng.random() < 0.5 else None}}
+    # ---- noise covariance, interferometer (complex) fits, the complex / covariance fit_util functions on ndarrays
+    for _ in range(300 if big else 50): yield gen_cov(rng)
+    for _ in range(300 if big else 50): yield gen_vis(rng)
+    for _ in range(200 if big else 40):
+        n = rng.randint(0, 6); e = rng.choice([0, 0, -40, 40])
+        yield {"op": "utilc", "r": [[rnd_val(rng) * 2.0 ** e, rnd_val(rng) * 2.0 ** e] for _ in range(n)],
+               "n": [[rng.choice(NOISE), rng.choice(NOISE)] for _ in range(n)]}
+    for _ in range(200 if big else 40):
+        n = rng.randint(1, 5); e = rng.choice([0, 0, -40, 40])
+        yield {"op": "utilcov", "r": [rnd_val(rng) * 2.0 ** e for _ in range(n)],
+               "Ci": [[rng.randint(-8, 8) / 4.0 for _ in range(n)] for _ in range(n)]}
+    for _ in range(200 if big else 40):
         yield {"op": "compose", "a": [rng.randint(-4000, 4000) / 16.0 for _ in range(5)]}
 
 # ----------------------------------------------------------------------------- implementation side
@@ -195,6 +408,7 @@ def classes():
     from autoarray.inversion.inversion.settings import SettingsInversion
     from autoarray.inversion.linear_obj.linear_obj import LinearObj
     from autoarray.inversion.regularization.abstract import AbstractRegularization
+    from autoarray.inversion.mock.mock_mapper import MockMapper
     from autoarray.preloads import Preloads
 
     class HFitImaging(FitImaging):
@@ -212,33 +426,51 @@ def classes():
         @property
         def inversion(self): return self._i
     class HReg(AbstractRegularization):
+        """hands out the caller's matrix itself (fingerprinted after the reads)"""
         def __init__(self, matrix):
-            super().__init__(); self._matrix = matrix
-        def regularization_matrix_from(self, linear_obj): return np.array(self._matrix, dtype=float)
+            super().__init__(); self._matrix = np.array(matrix, dtype=float)
+        def regularization_matrix_from(self, linear_obj): return self._matrix
     class HObj(LinearObj):
         def __init__(self, params, regularization):
             super().__init__(regularization=regularization); self._p = params
         @property
         def params(self): return self._p
     class HInv(AbstractInversion):
-        """the real AbstractInversion; only F (curvature_matrix) and s (reconstruction) are supplied"""
-        def __init__(self, linear_obj_list, F, s):
+        """the real AbstractInversion; only F (curvature_matrix) and s (reconstruction) are supplied.  Like the production
+        subclasses, curvature_matrix hands out a freshly computed array (curvature_reg_matrix may add to it in place)."""
+        def __init__(self, linear_obj_list, F, s, settings=None, preloads=None):
             super().__init__(dataset=DatasetInterface(data=None, noise_map=None), linear_obj_list=linear_obj_list,
-                             settings=SettingsInversion(), preloads=Preloads())
-            self._F = F; self._s = s
+                             settings=settings or SettingsInversion(), preloads=preloads or Preloads())
+            self._F = F; self._s = np.array(s, dtype=float)
         @cached_property
         def curvature_matrix(self): return np.array(self._F, dtype=float).reshape((len(self._s), len(self._s)))
         @cached_property
-        def reconstruction(self): return np.array(self._s, dtype=float)
-    _CLS.update(aa=aa, HFitImaging=HFitImaging, HFitDataset=HFitDataset, HReg=HReg, HObj=HObj, HInv=HInv)
+        def reconstruction(self): return self._s
+    _CLS.update(aa=aa, HFitImaging=HFitImaging, HFitDataset=HFitDataset, HReg=HReg, HObj=HObj, HInv=HInv,
+                MockMapper=MockMapper, SettingsInversion=SettingsInversion, Preloads=Preloads)
     return _CLS
 
-def make_inv(iv, junk=False):
+def make_objs(iv):
     c = classes()
     objs = []
-    for (p, r), b in zip(iv["objs"], iv["blocks"]):
-        objs.append(c["HObj"](p, c["HReg"](b) if r else None))
-    return c["HInv"](objs, iv["F"], iv["s"])
+    mappers = iv.get("mappers") or [0] * len(iv["objs"])
+    for (p, r), b, mp in zip(iv["objs"], iv["blocks"], mappers):
+        reg = c["HReg"](b) if r else None
+        objs.append(c["MockMapper"](parameters=p, regularization=reg) if mp else c["HObj"](p, reg))
+    return objs
+
+def make_inv(iv, junk=False, objs=None, settings=None, preloads=None):
+    c = classes()
+    return c["HInv"](objs if objs is not None else make_objs(iv), iv["F"], iv["s"], settings=settings, preloads=preloads)
+
+def inv_fingerprint(inv):
+    fp = [np.array(inv._s, copy=True)]
+    for o in inv.linear_obj_list:
+        if o.regularization is not None: fp.append(np.array(o.regularization._matrix, copy=True))
+    return fp
+def inv_fingerprint_changed(inv, fp):
+    now = inv_fingerprint(inv)
+    return not all(a.shape == b.shape and np.array_equal(a, b, equal_nan=True) for a, b in zip(fp, now))
 
 def inv_tables(iv):
     """exact principal sub-determinants on the regularized indices (keys of the ln table)"""
@@ -262,68 +494,155 @@ def cinv(iv):
 
 def flat(x): return [float(v) for v in np.asarray(x, dtype=float).ravel()]
 
-def run_fit(inp):
+# ---- building the dataset / the model array of a fit input, fresh or DERIVED from other structures
+def make_mask(aa, maskarr, geom):
+    ps, origin = GEOMS[geom]
+    return aa.Mask2D(mask=maskarr, pixel_scales=ps, origin=origin)
+
+def make_array(aa, mask, maskarr, v, mode, route):
+    """v: full (h, w) values, garbage in masked pixels"""
+    if mode == "slim":
+        fresh = lambda: aa.Array2D(values=v[~maskarr], mask=mask)
+        if route == "arith":
+            x = aa.Array2D(values=0.5 * v[~maskarr], mask=mask); return x + x
+        if route == "view": return fresh()[:]
+        if route == "copy": return copy.deepcopy(fresh())
+        if route == "native_slim": return fresh().native.slim
+        if route == "from_native2d": return aa.Array2D(values=v.copy(), mask=mask)
+        return fresh()
+    fresh = lambda: aa.Array2D(values=np.where(maskarr, 0.0, v), mask=mask, store_native=True).with_new_array(v.copy())
+    if route == "arith":
+        g = fresh(); return 0.5 * g + 0.5 * g          # masked pixels keep their garbage
+    if route == "view": return fresh()[:]
+    if route == "copy": return copy.copy(fresh())
+    if route == "native_of_slim": return aa.Array2D(values=v[~maskarr], mask=mask).native   # zeros in masked pixels
+    if route == "native_of_native": return fresh().native          # .native of a natively stored array: masked pixels zeroed
+    return fresh()
+
+def build_env(inp):
+    """-> dict(dataset, model, mask, use_mask, native): live objects of one fit input"""
     c = classes(); aa = c["aa"]
-    h, w = inp["shape"]; n = h * w
-    bits = inp["mask"]; mode = inp["mode"]; sky = inp["sky"]
-    maskarr = np.array(bits, dtype=bool).reshape((h, w))
-    mask = aa.Mask2D(mask=maskarr, pixel_scales=1.0)
-    use_mask = mode == "native"
-    def arr(vals):
-        v = np.array(vals, dtype=float).reshape((h, w))
-        if mode == "slim":
-            return aa.Array2D(values=v[~maskarr], mask=mask)
-        base = aa.Array2D(values=np.where(maskarr, 0.0, v), mask=mask, store_native=True)
-        return base.with_new_array(v.copy())     # masked pixels keep their garbage
-    def sel(vals):
-        return [x for x, b in zip(vals, bits) if not b] if mode == "slim" else list(vals)
-    data, noise, model = arr(inp["data"]), arr(inp["noise"]), arr(inp["model"])
-    dataset = aa.Imaging(data=data, noise_map=noise)
-    inv = None if inp["inv"] is None else make_inv(inp["inv"])
-    if inp["via"] == "fitdataset":
-        fit = c["HFitDataset"](dataset, model, inversion=inv, use_mask_in_fit=use_mask)
+    h, w = inp["shape"]; mode = inp["mode"]; route = inp.get("route", "fresh"); geom = inp.get("geom", 0)
+    maskarr = np.array(inp["mask"], dtype=bool).reshape((h, w))
+    V = {k: np.array(inp[k], dtype=float).reshape((h, w)) for k in ("data", "noise", "model")}
+    if route == "trimmed":
+        # the dataset is cut out of a larger one whose one-pixel border is masked
+        pm = np.ones((h + 2, w + 2), dtype=bool); pm[1:-1, 1:-1] = maskarr
+        pmask = make_mask(aa, pm, geom)
+        def padded(v, fill):
+            p = np.full((h + 2, w + 2), fill); p[1:-1, 1:-1] = v; return p
+        arrs = {k: make_array(aa, pmask, pm, padded(V[k], {"data": 99.0, "noise": 2.0, "model": -3.0}[k]), mode, "fresh") for k in V}
+        big = aa.Imaging(data=arrs["data"], noise_map=arrs["noise"])
+        dataset = big.trimmed_after_convolution_from(kernel_shape=(3, 3))
+        model = arrs["model"].trimmed_after_convolution_from(kernel_shape=(3, 3))
+        mask = dataset.mask
+    elif route == "apply_mask":
+        ps, origin = GEOMS[geom]
+        full = aa.Imaging(data=aa.Array2D.no_mask(V["data"].copy(), pixel_scales=ps, origin=origin),
+                          noise_map=aa.Array2D.no_mask(V["noise"].copy(), pixel_scales=ps, origin=origin), check_noise_map=False)
+        mask = make_mask(aa, maskarr, geom)
+        dataset = full.apply_mask(mask=mask)
+        model = make_array(aa, mask, maskarr, V["model"], mode, "fresh")
     else:
-        fit = c["HFitImaging"](dataset, model, inversion=inv, use_mask_in_fit=use_mask,
-                               dataset_model=aa.DatasetModel(background_sky_level=sky))
+        mask = make_mask(aa, maskarr, geom)
+        dataset = aa.Imaging(data=make_array(aa, mask, maskarr, V["data"], mode, route),
+                             noise_map=make_array(aa, mask, maskarr, V["noise"], mode, route))
+        model = make_array(aa, mask, maskarr, V["model"], mode, route)
+    return {"dataset": dataset, "model": model, "use_mask": mode == "native", "native": mode != "slim"}
+
+def make_fit(env, inp_via, sky, inv, model=None):
+    c = classes(); aa = c["aa"]
+    model = env["model"] if model is None else model
+    if inp_via == "fitdataset":
+        return c["HFitDataset"](env["dataset"], model, inversion=inv, use_mask_in_fit=env["use_mask"])
+    return c["HFitImaging"](env["dataset"], model, inversion=inv, use_mask_in_fit=env["use_mask"],
+                            dataset_model=aa.DatasetModel(background_sky_level=sky))
+
+def snapshot(dataset, model):
+    return {"mask": np.array(np.asarray(dataset.mask), dtype=bool, copy=True), "data": np.array(np.asarray(dataset.data), dtype=float, copy=True),
+            "noise": np.array(np.asarray(dataset.noise_map), dtype=float, copy=True), "model": np.array(np.asarray(model), dtype=float, copy=True)}
+def snapshot_changed(a, b):
+    return [k for k in a if a[k].shape != b[k].shape or not np.array_equal(a[k], b[k], equal_nan=(k != "mask"))]
+
+def observe(fit, order=None):
+    """reads every observed property of a fit object (in the given order)"""
     o = {}
-    o["data"] = flat(fit.data); o["residual"] = flat(fit.residual_map); o["normres"] = flat(fit.normalized_residual_map)
-    o["chimap"] = flat(fit.chi_squared_map); o["chi2"] = float(fit.chi_squared)
-    rc = call_res(lambda: float(fit.reduced_chi_squared)); o["redchi2"] = list(rc)
-    o["nn"] = float(fit.noise_normalization); o["ll"] = float(fit.log_likelihood)
-    llr = fit.log_likelihood_with_regularization; ev = fit.log_evidence; fom = fit.figure_of_merit
-    o["llreg"] = None if llr is None else float(llr); o["evidence"] = None if ev is None else float(ev)
-    o["fom"] = None if fom is None else float(fom)
-    with np.errstate(all="ignore"):
-        o["rff"] = flat(fit.residual_flux_fraction_map); o["snr"] = flat(fit.signal_to_noise_map)
-    # ---- Coq term
-    dsel, nsel, msel = sel(inp["data"]), sel(inp["noise"]), sel(inp["model"])
+    def rd(k):
+        if k == "data": o["data"] = flat(fit.data)
+        elif k == "residual": o["residual"] = flat(fit.residual_map)
+        elif k == "normres": o["normres"] = flat(fit.normalized_residual_map)
+        elif k == "chimap": o["chimap"] = flat(fit.chi_squared_map)
+        elif k == "chi2": o["chi2"] = float(fit.chi_squared)
+        elif k == "redchi2": o["redchi2"] = list(call_res(lambda: float(fit.reduced_chi_squared)))
+        elif k == "nn": o["nn"] = float(fit.noise_normalization)
+        elif k == "ll": o["ll"] = float(fit.log_likelihood)
+        elif k == "llreg":
+            v = fit.log_likelihood_with_regularization; o["llreg"] = None if v is None else float(v)
+        elif k == "evidence":
+            v = fit.log_evidence; o["evidence"] = None if v is None else float(v)
+        elif k == "fom":
+            v = fit.figure_of_merit; o["fom"] = None if v is None else float(v)
+        elif k == "rff":
+            with np.errstate(all="ignore"): o["rff"] = flat(fit.residual_flux_fraction_map)
+        elif k == "snr":
+            with np.errstate(all="ignore"): o["snr"] = flat(fit.signal_to_noise_map)
+    for k in (order or READS): rd(k)
+    return o
+
+def same_out(a, b):
+    def eq(x, y):
+        if isinstance(x, list): return len(x) == len(y) and all(eq(p, q) for p, q in zip(x, y))
+        if isinstance(x, float) and isinstance(y, float): return x == y or (math.isnan(x) and math.isnan(y))
+        return x == y
+    return [k for k in a if not eq(a[k], b.get(k))]
+
+def fit_case(snap, use_mask, sky, ivd, o):
+    """the Coq case of one read of a fit (inputs = snapshot of the live arrays) and the Python-side cross-check of
+    the ln-dependent scalars against math.log -> (coq, py_ok, [detail])"""
+    bits = [int(b) for b in snap["mask"].ravel()]
+    d, nz, m = flat(snap["data"]), flat(snap["noise"]), flat(snap["model"])
+    native = len(d) == len(bits) and snap["data"].ndim == 2
+    o = dict(o)
+    # a negative zero in the noise map flips the sign of an infinite signal-to-noise value, which the rational model cannot
+    # see: such a pixel is made unobserved (the value IEEE gives for +0.0 is substituted)
+    fd = [x - sky for x in d] if sky != 0.0 else d
+    for i, x in enumerate(nz):
+        if x == 0.0 and math.copysign(1.0, x) < 0 and i < len(o["snr"]):
+            with np.errstate(all="ignore"):
+                v = float(np.float64(fd[i]) / np.float64(0.0)); o["snr"][i] = 0.0 if v < 0 else v
+    rc = tuple(o["redchi2"])
     dets = ()
-    if inp["inv"] is not None:
-        _, dfh, dh, _, _ = inv_tables(inp["inv"]); dets = (dfh, dh)
-    fitted_noise = [x for x, b in zip(inp["noise"], bits) if not b]
+    if ivd is not None:
+        _, dfh, dh, _, _ = inv_tables(ivd); dets = (dfh, dh)
+    full = lambda xs: xs if native else None
+    if native: fitted = [i for i in range(len(bits)) if not (bits[i] and use_mask)]
+    else: fitted = list(range(len(d)))
+    fitted_noise = [nz[i] for i in fitted]
     tbl = ln_table(fitted_noise, dets)
-    f = (f"(Build_fit Q {clist([cbool(b) for b in bits])} {cbool(use_mask)} {cq(frac(sky))} {ql(dsel)} {ql(nsel)} {ql(msel)} "
-         f"{'None' if inp['inv'] is None else '(Some ' + cinv(inp['inv']) + ')'})")
+    f = (f"(Build_fit Q {clist([cbool(b) for b in bits])} {cbool(use_mask)} {cq(frac(sky))} {ql(d)} {ql(nz)} {ql(m)} "
+         f"{'None' if ivd is None else '(Some ' + cinv(ivd) + ')'})")
     out = (f"(Build_fitout {ql(o['data'])} {ql(o['residual'])} {ql(o['normres'])} {ql(o['chimap'])} {cq(fq(o['chi2']))} "
            f"{cres(rc, lambda v: cq(fq(v)))} {cq(fq(o['nn']))} {cq(fq(o['ll']))} {copt(o['llreg'], lambda v: cq(fq(v)))} "
            f"{copt(o['evidence'], lambda v: cq(fq(v)))} {copt(o['fom'], lambda v: cq(fq(v)))} "
            f"{qol([fopt(x) for x in o['rff']])} {qol([fopt(x) for x in o['snr']])})")
-    coq = f"(KFit {ctbl(tbl)} {cq(Fraction(TWO_PI))} {f} {out})"
-    # ---- Python-side check of the ln-dependent scalars against math.log (exact rational arithmetic elsewhere)
+    # the same for a negative zero in a denominator of the residual flux fraction (never generated; derived arrays only)
+    xrff = list(o["rff"])
+    for i, x in enumerate(fd):
+        if x == 0.0 and math.copysign(1.0, x) < 0 and i < len(xrff) and math.isinf(xrff[i]): xrff[i] = -xrff[i]
+    coq = f"(KFitX {ctbl(tbl)} TP {f} {out} {xl(xrff)} {xl(o['snr'])})"
     py_ok = True; detail = []
     if all(x > 0 for x in fitted_noise):
         S = Fraction(sky)
-        pix = [i for i in range(len(bits)) if not bits[i]]
-        D, N, M = ([Fraction(x) for x in inp[k]] for k in ("data", "noise", "model"))
-        chi = sum((((D[i] - S) - M[i]) / N[i]) ** 2 for i in pix)
-        nn = sum(math.log(2 * math.pi * float(N[i]) ** 2) for i in pix)
+        D, N, M = ([Fraction(x) for x in xs] for xs in (d, nz, m))
+        chi = sum((((D[i] - S) - M[i]) / N[i]) ** 2 for i in fitted)
+        nn = sum(flog(Fraction(TWO_PI) * N[i] ** 2) for i in fitted)
         want = {"chi2": float(chi), "nn": nn, "ll": -0.5 * (float(chi) + nn)}
-        if inp["inv"] is not None:
-            reg, dfh, dh, H, FH = inv_tables(inp["inv"])
-            s = [Fraction(x) for x in inp["inv"]["s"]]
+        if ivd is not None:
+            reg, dfh, dh, H, FH = inv_tables(ivd)
+            s = [Fraction(x) for x in ivd["s"]]
             q = float(sum(s[i] * H[i][j] * s[j] for i in reg for j in reg))
             if reg and dfh > 0 and dh > 0:
-                want["evidence"] = -0.5 * (float(chi) + q + math.log(dfh) - math.log(dh) + nn)
+                want["evidence"] = -0.5 * (float(chi) + q + flog(dfh) - flog(dh) + nn)
             elif not reg:
                 want["evidence"] = want["ll"]
             want["llreg"] = -0.5 * (float(chi) + q + nn)
@@ -334,12 +653,95 @@ def run_fit(inp):
             got = o[k]
             ok = (got is None and v is None) or (got is not None and v is not None and math.isfinite(got) and rel_close(got, v))
             if not ok: py_ok = False; detail.append(f"{k}: implementation {got}, definition {v}")
-    return {"coq": coq, "out": o, "py_ok": py_ok, "nontrivial": True, "detail": "; ".join(detail) or None,
-            "kind": f"fit/{mode}/{'sky' if sky else 'nosky'}/{'noinv' if inp['inv'] is None else 'inv'}/{inp['via']}"}
+    return coq, py_ok, detail
 
-def run_inv(inp):
-    iv = inp["inv"]
-    inv = make_inv(iv)
+def read_fit(fit, env, model, use_mask, sky, ivd, order=None, inv=None):
+    """snapshot the caller's arrays, read everything, check that the reads did not modify the caller's arrays
+    -> (coq, py_ok, [detail], o)"""
+    before = snapshot(env["dataset"], model)
+    ifp = inv_fingerprint(inv) if inv is not None else None
+    o = observe(fit, order)
+    after = snapshot(env["dataset"], model)
+    coq, py_ok, detail = fit_case(before, use_mask, sky, ivd, o)
+    ch = snapshot_changed(before, after)
+    if ch:
+        py_ok = False; detail.append("reading the fit modified the caller's " + ", ".join(ch) + " in place")
+    if inv is not None and inv_fingerprint_changed(inv, ifp):
+        py_ok = False; detail.append("reading the fit modified the inversion's reconstruction / regularization matrices in place")
+    return coq, py_ok, detail, o
+
+def fit_kind(inp):
+    return (f"fit/{inp['mode']}/{'sky' if inp['sky'] else 'nosky'}/{'noinv' if inp['inv'] is None else 'inv'}/{inp['via']}"
+            + ("" if inp.get("route", "fresh") == "fresh" else "/" + inp["route"]))
+
+def run_fit(inp):
+    env = build_env(inp)
+    inv = None if inp["inv"] is None else make_inv(inp["inv"])
+    fit = make_fit(env, inp["via"], inp["sky"], inv)
+    coq, py_ok, detail, o = read_fit(fit, env, env["model"], env["use_mask"], inp["sky"], inp["inv"], inv=inv)
+    return {"coq": coq, "out": o, "py_ok": py_ok, "nontrivial": True, "detail": "; ".join(detail) or None, "kind": fit_kind(inp)}
+
+def set_px(arr, native, shape, pos, val):
+    """the user's in-place edit arr[...] = val"""
+    if native: arr[pos // shape[1], pos % shape[1]] = val
+    else: arr[pos] = val
+
+def run_hist(inp):
+    """one dataset, one fit object: read; re-read; the user edits stored values / mask pixels in place; re-read; a second
+    fit object on the same dataset (other model, other sky); the first fit again; a second dataset on the same mask object"""
+    base = inp["base"]; shape = base["shape"]
+    env = build_env(base); ds = env["dataset"]; native = env["native"]; um = env["use_mask"]
+    inv = None if base["inv"] is None else make_inv(base["inv"])
+    fit1 = make_fit(env, base["via"], base["sky"], inv)
+    coqs, outs, detail = [], [], []
+    py_ok = True
+    def step(tag, fit, model, sky, order=None):
+        nonlocal py_ok
+        coq, ok, det, o = read_fit(fit, env, model, um, sky, base["inv"], order=order, inv=inv)
+        coqs.append(coq); outs.append(o)
+        if not ok: py_ok = False; detail.extend(f"[{tag}] {x}" for x in det)
+        return o
+    o1 = step("first read", fit1, env["model"], base["sky"])
+    o1b = observe(fit1, inp["order"])
+    bad = same_out(o1, o1b)
+    if bad: py_ok = False; detail.append("[re-read] a second read of the same fit object (other order) differs in " + ", ".join(bad))
+    # ---- the user edits the dataset / the model array / the mask in place
+    for which, pos, val in inp["edits"]:
+        set_px({"data": ds.data, "noise": ds.noise_map, "model": env["model"]}[which], native, shape, pos, val)
+    if inp["maskflip"] is not None:
+        y, x = inp["maskflip"] // shape[1], inp["maskflip"] % shape[1]
+        ds.mask[y, x] = not bool(ds.mask[y, x])
+    sky1 = base["sky"]
+    if inp.get("sky_edit") is not None:
+        fit1.dataset_model.background_sky_level = inp["sky_edit"]; sky1 = inp["sky_edit"]
+    o2 = step("read after in-place edits", fit1, env["model"], sky1, inp["order"])
+    # ---- a second fit object on the same dataset
+    c = classes(); aa = c["aa"]
+    maskarr = np.array(np.asarray(ds.mask), dtype=bool)
+    v2 = np.array(inp["model2"], dtype=float).reshape(shape)
+    model2 = make_array(aa, ds.mask, maskarr, v2, "slim" if not native else "native", "fresh")
+    env2 = dict(env, model=model2)
+    fit2 = make_fit(env2, base["via"], inp["sky2"], inv)
+    step("second fit object on the same dataset", fit2, model2, inp["sky2"])
+    o2b = observe(fit1)
+    bad = same_out(o2, o2b)
+    if bad: py_ok = False; detail.append("[first fit after the second] reading another fit object changed " + ", ".join(bad))
+    # ---- a second dataset on the same mask object
+    tw = {k: np.array(inp["twin"][k], dtype=float).reshape(shape) for k in ("data", "noise")}
+    # pixels that are unmasked now carry in-scope noise in the twin as well
+    tn = np.where(maskarr, tw["noise"], np.where(np.isin(tw["noise"], NOISE), tw["noise"], 2.0))
+    mode = "slim" if not native else "native"
+    ds3 = aa.Imaging(data=make_array(aa, ds.mask, maskarr, tw["data"], mode, "fresh"),
+                     noise_map=make_array(aa, ds.mask, maskarr, tn, mode, "fresh"))
+    env3 = dict(env, dataset=ds3, model=model2)
+    fit3 = make_fit(env3, base["via"], inp["sky2"], inv)
+    coq, ok, det, o = read_fit(fit3, env3, model2, um, inp["sky2"], base["inv"], inv=inv)
+    coqs.append(coq); outs.append(o)
+    if not ok: py_ok = False; detail.extend(f"[second dataset on the same mask object] {x}" for x in det)
+    return {"coq": coqs[0], "extra_coq": coqs[1:], "out": outs, "py_ok": py_ok, "nontrivial": True,
+            "detail": "; ".join(detail) or None, "kind": "hist/" + base["mode"] + ("/inv" if inv is not None else "")}
+
+def observe_inv(inv, iv):
     o = {}
     o["noreg"] = [int(x) for x in inv.no_regularization_index_list]
     o["H"] = [flat(r) for r in np.asarray(inv.regularization_matrix, dtype=float).reshape((len(iv["s"]), -1))] if iv["s"] else []
@@ -351,19 +753,107 @@ def run_inv(inp):
     with np.errstate(all="ignore"):
         o["ldc"] = float(inv.log_det_curvature_reg_matrix_term)
         o["ldr"] = float(np.real(inv.log_det_regularization_matrix_term))
+    return o
+
+def inv_case(iv, o):
     reg, dfh, dh, H, FH = inv_tables(iv)
     tbl = ln_table([], (dfh, dh))
     out = (f"(Build_invout {clist([cnat(x) for x in o['noreg']])} {qm(o['H'])} {qm(o['FH'])} {qm(o['Hred'])} {qm(o['FHred'])} "
            f"{ql(o['sred'])} {cq(fq(o['regterm']))} {cq(fq(o['ldc']))} {cq(fq(o['ldr']))})")
-    coq = f"(KInv {ctbl(tbl)} {cinv(iv)} {out})"
+    coq = f"(K0 (KInv {ctbl(tbl)} {cinv(iv)} {out}))"
     py_ok = True; detail = []
     if reg:
         for k, d in (("ldc", dfh), ("ldr", dh)):
-            if d > 0 and not (math.isfinite(o[k]) and rel_close(o[k], math.log(d))):
-                py_ok = False; detail.append(f"{k}: implementation {o[k]}, ln det over regularized parameters {math.log(d)}")
+            if d > 0 and not (math.isfinite(o[k]) and rel_close(o[k], flog(d))):
+                py_ok = False; detail.append(f"{k}: implementation {o[k]}, ln det over regularized parameters {flog(d)}")
+    return coq, py_ok, detail
+
+def inv_kind(iv):
     nreg = sum(1 for _, r in iv["objs"] if r)
+    return ("empty" if not iv["objs"] else "all" if nreg == len(iv["objs"]) else "none" if nreg == 0 else "partial") + \
+           ("/mappers" if any(iv.get("mappers") or []) else "")
+
+def read_inv(inv, iv):
+    fp = inv_fingerprint(inv)
+    o = observe_inv(inv, iv)
+    coq, py_ok, detail = inv_case(iv, o)
+    if inv_fingerprint_changed(inv, fp):
+        py_ok = False; detail.append("reading the inversion modified the caller's reconstruction / regularization matrices in place")
+    return coq, py_ok, detail, o
+
+def consistent_preloads(iv):
+    """a Preloads object carrying the TRUE regularization matrix and the true log-determinant of its restriction:
+    the inversion must then return what it returns without preloads"""
+    c = classes()
+    reg, dfh, dh, H, FH = inv_tables(iv)
+    kw = {"regularization_matrix": np.array([[float(x) for x in r] for r in H], dtype=float).reshape((len(H), len(H)))}
+    if reg and dh > 0: kw["log_det_regularization_matrix_term"] = flog(dh)
+    return c["Preloads"](**kw)
+
+def run_inv(inp):
+    iv = inp["inv"]
+    pre = consistent_preloads(iv) if inp.get("preload") and iv["s"] else None
+    coq, py_ok, detail, o = read_inv(make_inv(iv, preloads=pre), iv)
     return {"coq": coq, "out": o, "py_ok": py_ok, "nontrivial": True, "detail": "; ".join(detail) or None,
-            "kind": "inv/" + ("empty" if not iv["objs"] else "all" if nreg == len(iv["objs"]) else "none" if nreg == 0 else "partial")}
+            "kind": "inv/" + inv_kind(iv) + ("/preloads" if pre is not None else "")}
+
+def cpre(pre):
+    H = "None" if pre["H"] is None else f"(Some {qm(pre['H'])})"
+    l = "None" if pre["ldr"] is None else f"(Some {cq(frac(pre['ldr']))})"
+    return f"(Build_pre Q {H} {l})"
+
+def run_invp(inp):
+    """the inversion terms with a Preloads object that carries ANY regularization matrix of the right size (not the
+    assembled one) and / or any log-determinant: the preload branches of abstract.py"""
+    c = classes()
+    iv = inp["inv"]; pre = inp["pre"]
+    kw = {}
+    if pre["H"] is not None: kw["regularization_matrix"] = np.array(pre["H"], dtype=float)
+    if pre["ldr"] is not None: kw["log_det_regularization_matrix_term"] = float(pre["ldr"])
+    inv = make_inv(iv, preloads=c["Preloads"](**kw))
+    fp = inv_fingerprint(inv); Hb = None if pre["H"] is None else np.array(kw["regularization_matrix"], copy=True)
+    o = observe_inv(inv, iv)
+    # ln table: determinants of the matrices in force, restricted to the regularized parameters
+    reg, _, _, H, _ = inv_tables(iv)
+    if pre["H"] is not None: H = [[Fraction(x) for x in r] for r in pre["H"]]
+    FH = [[Fraction(iv["F"][i][j]) + H[i][j] for j in range(len(H))] for i in range(len(H))]
+    sub = lambda M: [[M[i][j] for j in reg] for i in reg]
+    dfh, dh = fdet(sub(FH)), fdet(sub(H))
+    tbl = ln_table([], (dfh, dh))
+    out = (f"(Build_invout {clist([cnat(x) for x in o['noreg']])} {qm(o['H'])} {qm(o['FH'])} {qm(o['Hred'])} {qm(o['FHred'])} "
+           f"{ql(o['sred'])} {cq(fq(o['regterm']))} {cq(fq(o['ldc']))} {cq(fq(o['ldr']))})")
+    coq = f"(KInvP {ctbl(tbl)} {cpre(pre)} {cinv(iv)} {out})"
+    py_ok = True; detail = []
+    if reg:
+        want = {"ldc": flog(dfh) if dfh > 0 else None, "ldr": pre["ldr"] if pre["ldr"] is not None else (flog(dh) if dh > 0 else None)}
+        for k, w in want.items():
+            if w is not None and not (math.isfinite(o[k]) and rel_close(o[k], w)):
+                py_ok = False; detail.append(f"{k}: implementation {o[k]}, expected {w}")
+    if inv_fingerprint_changed(inv, fp) or (Hb is not None and not np.array_equal(Hb, kw["regularization_matrix"])):
+        py_ok = False; detail.append("reading the inversion modified the caller's reconstruction / regularization / preloaded matrices in place")
+    return {"coq": coq, "out": o, "py_ok": py_ok, "nontrivial": True, "detail": "; ".join(detail) or None,
+            "kind": "invp/" + inv_kind(iv) + ("/H" if pre["H"] is not None else "") + ("/ldr" if pre["ldr"] is not None else "")}
+
+def run_invhist(inp):
+    """several inversions that share the linear objects (and their regularization objects), the settings and the preloads
+    object: read, re-read, another (F, s) on the same objects, other regularization flags with the same sizes"""
+    c = classes()
+    a = inp["a"]; b = dict(a, F=inp["F2"], s=inp["s2"]); cc = inp["c"]
+    settings, preloads = c["SettingsInversion"](), c["Preloads"]()
+    objs = make_objs(a)
+    coqs, outs, detail = [], [], []; py_ok = True
+    invs = []
+    for tag, iv, ob in (("first inversion", a, objs), ("second inversion on the same linear objects", b, objs),
+                        ("third inversion, same sizes, other regularization flags", cc, None)):
+        inv = make_inv(iv, objs=ob, settings=settings, preloads=preloads); invs.append((inv, iv))
+        coq, ok, det, o = read_inv(inv, iv)
+        coqs.append(coq); outs.append(o)
+        if not ok: py_ok = False; detail.extend(f"[{tag}] {x}" for x in det)
+    for (inv, iv), o in zip(invs, outs):     # re-reads after the other inversions were evaluated
+        bad = same_out(o, observe_inv(inv, iv))
+        if bad: py_ok = False; detail.append("[re-read] a second read of the same inversion differs in " + ", ".join(bad))
+    return {"coq": coqs[0], "extra_coq": coqs[1:], "out": outs, "py_ok": py_ok, "nontrivial": True,
+            "detail": "; ".join(detail) or None, "kind": "invhist/" + inv_kind(a)}
 
 def run_util(inp):
     c = classes(); aa = c["aa"]
@@ -376,6 +866,7 @@ def run_util(inp):
         mask = aa.Mask2D(mask=mk, pixel_scales=1.0)
         wrap = lambda v: aa.Array2D(values=np.where(mk, 0.0, v), mask=mask, store_native=True).with_new_array(v.copy())
         d, n, m = wrap(d), wrap(n), wrap(m)
+    before = [np.array(np.asarray(x), copy=True) for x in (d, n, m, mask)]
     o = {}
     with np.errstate(all="ignore"):
         r = fu.residual_map_from(data=d, model_data=m)
@@ -392,17 +883,24 @@ def run_util(inp):
         o["nnw"] = float(fu.noise_normalization_with_mask_from(noise_map=n, mask=mask))
         o["rff"] = flat(fu.residual_flux_fraction_map_from(residual_map=np.asarray(r), data=np.asarray(d)))
         o["rffw"] = flat(fu.residual_flux_fraction_map_with_mask_from(residual_map=np.asarray(rw), data=np.asarray(d), mask=mask))
+        o["rffx"] = flat(fu.residual_flux_fraction_map_with_mask_from(residual_map=np.asarray(r), data=np.asarray(d), mask=mask))
+        # the intermediate maps are inputs of later calls: they must not have been modified by them
+        kept = flat(r) == o["res"] and flat(rw) == o["resw"] and flat(cm) == o["cmap"] and flat(cmw) == o["cmapw"]
+    after = [np.asarray(x) for x in (d, n, m, mask)]
+    unchanged = all(np.array_equal(a, b) for a, b in zip(before, after)) and kept
     tbl = ln_table(inp["noise"])
     out = (f"(Build_utilout {ql(o['res'])} {ql(o['nres'])} {ql(o['cmap'])} {cq(fq(o['chi2']))} {cq(fq(o['nn']))} "
            f"{ql(o['resw'])} {ql(o['nresw'])} {ql(o['cmapw'])} {cq(fq(o['chi2w']))} {cq(fq(o['fast']))} {cq(fq(o['nnw']))} "
            f"{qol([fopt(x) for x in o['rff']])} {qol([fopt(x) for x in o['rffw']])})")
-    coq = (f"(KUtil {ctbl(tbl)} {cq(Fraction(TWO_PI))} {clist([cbool(b) for b in inp['mask']])} {ql(inp['data'])} "
-           f"{ql(inp['noise'])} {ql(inp['model'])} {out})")
+    coq = (f"(K0 (KUtil {ctbl(tbl)} TP {clist([cbool(b) for b in inp['mask']])} {ql(inp['data'])} "
+           f"{ql(inp['noise'])} {ql(inp['model'])} {out}))")
+    extra = [f"(KUtilX {ql(o['res'])} {ql(inp['data'])} {clist([cbool(b) for b in inp['mask']])} {xl(o['rff'])} {xl(o['rffx'])})"]
     nn = sum(math.log(2 * math.pi * x * x) for x in inp["noise"])
     nnw = sum(math.log(2 * math.pi * x * x) for x, b in zip(inp["noise"], inp["mask"]) if not b)
-    py_ok = rel_close(o["nn"], nn) and rel_close(o["nnw"], nnw)
-    return {"coq": coq, "out": o, "py_ok": py_ok, "nontrivial": True, "kind": "util/" + ("array2d" if inp.get("wrap") else f"{len(shape)}d"),
-            "detail": None if py_ok else f"noise normalization {o['nn']} / {o['nnw']} vs {nn} / {nnw}"}
+    py_ok = rel_close(o["nn"], nn) and rel_close(o["nnw"], nnw) and unchanged
+    return {"coq": coq, "extra_coq": extra, "out": o, "py_ok": py_ok, "nontrivial": True, "kind": "util/" + ("array2d" if inp.get("wrap") else f"{len(shape)}d"),
+            "detail": None if py_ok else ("a fit_util function modified one of its arguments in place" if not unchanged
+                                          else f"noise normalization {o['nn']} / {o['nnw']} vs {nn} / {nnw}")}
 
 def run_compose(inp):
     from autoarray.fit import fit_util as fu
@@ -412,19 +910,217 @@ def run_compose(inp):
     ev = fu.log_evidence_from(chi_squared=chi, regularization_term=reg, log_curvature_regularization_term=ldc,
                               log_regularization_term=ldr, noise_normalization=nn)
     o = [float(ll), float(llr), float(ev)]
-    coq = f"(KCompose {' '.join(cq(frac(x)) for x in inp['a'])} ({cq(fq(o[0]))}, {cq(fq(o[1]))}, {cq(fq(o[2]))}))"
+    coq = f"(K0 (KCompose {' '.join(cq(frac(x)) for x in inp['a'])} ({cq(fq(o[0]))}, {cq(fq(o[1]))}, {cq(fq(o[2]))})))"
     return {"coq": coq, "out": o, "py_ok": None, "nontrivial": False, "kind": "compose"}
+
+# ---- noise covariance
+def fsolve(C, r):
+    """exact solution x of C x = r (Fractions)"""
+    n = len(r)
+    A = [[Fraction(x) for x in row] + [Fraction(b)] for row, b in zip(C, r)]
+    for c in range(n):
+        p = next(i for i in range(c, n) if A[i][c] != 0)
+        A[c], A[p] = A[p], A[c]
+        for i in range(n):
+            if i != c and A[i][c] != 0:
+                f = A[i][c] / A[c][c]
+                A[i] = [a - f * b for a, b in zip(A[i], A[c])]
+    return [A[i][n] / A[i][i] for i in range(n)]
+
+def run_cov(inp):
+    c = classes(); aa = c["aa"]
+    base = inp["base"]; h, w = base["shape"]; geom = base.get("geom", 0)
+    maskarr = np.array(base["mask"], dtype=bool).reshape((h, w))
+    V = {k: np.array(base[k], dtype=float).reshape((h, w)) for k in ("data", "noise", "model")}
+    C = np.array(inp["C"], dtype=float)
+    mask = make_mask(aa, maskarr, geom)
+    if base.get("route") == "apply_mask":
+        ps, origin = GEOMS[geom]
+        full = aa.Imaging(data=aa.Array2D.no_mask(V["data"].copy(), pixel_scales=ps, origin=origin),
+                          noise_map=aa.Array2D.no_mask(V["noise"].copy(), pixel_scales=ps, origin=origin),
+                          noise_covariance_matrix=C, check_noise_map=False)
+        dataset = full.apply_mask(mask=mask)
+    else:
+        dataset = aa.Imaging(data=make_array(aa, mask, maskarr, V["data"], "slim", "fresh"),
+                             noise_map=make_array(aa, mask, maskarr, V["noise"], "slim", "fresh"), noise_covariance_matrix=C)
+    inv = None if base["inv"] is None else make_inv(base["inv"])
+    coqs, outs, detail = [], [], []; py_ok = True
+    models = [make_array(aa, mask, maskarr, V["model"], "slim", "fresh"),
+              make_array(aa, mask, maskarr, np.array(inp["model2"], dtype=float).reshape((h, w)), "slim", "fresh")]
+    for tag, model in (("first fit", models[0]), ("second fit on the same dataset", models[1])):
+        env = {"dataset": dataset, "model": model, "use_mask": False, "native": False}
+        fit = make_fit(env, "imaging", base["sky"], inv)
+        before = snapshot(dataset, model); Cb = np.array(dataset.noise_covariance_matrix, copy=True)
+        o = {"chi2": float(fit.chi_squared), "redchi2": list(call_res(lambda: float(fit.reduced_chi_squared))),
+             "ll": float(fit.log_likelihood)}
+        for k, a in (("llreg", "log_likelihood_with_regularization"), ("evidence", "log_evidence"), ("fom", "figure_of_merit")):
+            v = getattr(fit, a); o[k] = None if v is None else float(v)
+        o["residual"] = flat(fit.residual_map)
+        Ci = np.array(dataset.noise_covariance_matrix_inv, dtype=float)
+        o["cinv"] = [flat(r) for r in Ci]
+        after = snapshot(dataset, model)
+        ch = snapshot_changed(before, after) + ([] if np.array_equal(Cb, dataset.noise_covariance_matrix) else ["noise_covariance_matrix"])
+        if ch: py_ok = False; detail.append(f"[{tag}] reading the fit modified the caller's " + ", ".join(ch) + " in place")
+        d, nz, m = flat(before["data"]), flat(before["noise"]), flat(before["model"])
+        bits = [int(b) for b in before["mask"].ravel()]
+        dets = ()
+        if base["inv"] is not None:
+            _, dfh, dh, _, _ = inv_tables(base["inv"]); dets = (dfh, dh)
+        tbl = ln_table(nz, dets)
+        f = (f"(Build_fit Q {clist([cbool(b) for b in bits])} false {cq(frac(base['sky']))} {ql(d)} {ql(nz)} {ql(m)} "
+             f"{'None' if base['inv'] is None else '(Some ' + cinv(base['inv']) + ')'})")
+        out = (f"(Build_covout {qm(o['cinv'])} {cq(fq(o['chi2']))} {cres(tuple(o['redchi2']), lambda v: cq(fq(v)))} {cq(fq(o['ll']))} "
+               f"{copt(o['llreg'], lambda v: cq(fq(v)))} {copt(o['evidence'], lambda v: cq(fq(v)))} {copt(o['fom'], lambda v: cq(fq(v)))})")
+        coqs.append(f"(KCov {ctbl(tbl)} TP {f} {qm(Cb)} {out})"); outs.append(o)
+        # Python side: chi-squared against the EXACT solution of C x = r (no inverse involved)
+        S = Fraction(base["sky"])
+        r = [(Fraction(a) - S) - Fraction(b) for a, b in zip(d, m)]
+        want = float(sum(a * b for a, b in zip(r, fsolve(Cb.tolist(), r)))) if r else 0.0
+        if not (math.isfinite(o["chi2"]) and abs(o["chi2"] - want) <= 1e-9 * abs(want)):
+            py_ok = False; detail.append(f"[{tag}] chi2: implementation {o['chi2']}, r^T C^-1 r = {want}")
+    return {"coq": coqs[0], "extra_coq": coqs[1:], "out": outs, "py_ok": py_ok, "nontrivial": True,
+            "detail": "; ".join(detail) or None, "kind": "cov/" + base.get("route", "direct") + ("/inv" if inv is not None else "")}
+
+# ---- interferometer
+def vis_classes():
+    c = classes()
+    if "HFitInterferometer" not in c:
+        from autoarray.fit.fit_interferometer import FitInterferometer
+        class HFitInterferometer(FitInterferometer):
+            def __init__(self, dataset, model_data, inversion=None, **kw):
+                super().__init__(dataset=dataset, **kw); self._m = model_data; self._i = inversion
+            @property
+            def model_data(self): return self._m
+            @property
+            def inversion(self): return self._i
+        class NoTransformer:
+            """the fit statistics never use the transformer (pylops is not installed: the production classes cannot be built)"""
+            def __init__(self, uv_wavelengths, real_space_mask): pass
+        c.update(HFitInterferometer=HFitInterferometer, NoTransformer=NoTransformer)
+    return c
+
+def zc(p): return complex(p[0], p[1])
+def observe_vis(fit, order=None):
+    o = {}
+    z = lambda a: [[float(x.real), float(x.imag)] for x in np.asarray(a, dtype=complex).ravel()]
+    for k in (order or ["residual", "normres", "chimap", "chi2", "redchi2", "nn", "ll", "llreg", "evidence", "fom", "snr"]):
+        if k == "residual": o[k] = z(fit.residual_map)
+        elif k == "normres": o[k] = z(fit.normalized_residual_map)
+        elif k == "chimap": o[k] = z(fit.chi_squared_map)
+        elif k == "chi2": o[k] = float(fit.chi_squared)
+        elif k == "redchi2": o[k] = list(call_res(lambda: float(fit.reduced_chi_squared)))
+        elif k == "nn": o[k] = float(fit.noise_normalization)
+        elif k == "ll": o[k] = float(fit.log_likelihood)
+        elif k in ("llreg", "evidence", "fom"):
+            v = getattr(fit, {"llreg": "log_likelihood_with_regularization", "evidence": "log_evidence", "fom": "figure_of_merit"}[k])
+            o[k] = None if v is None else float(v)
+        elif k == "snr":
+            with np.errstate(all="ignore"): o[k] = z(fit.signal_to_noise_map)
+    return o
+
+def vis_case(use_mask, d, nz, m, ivd, o):
+    dets = ()
+    if ivd is not None:
+        _, dfh, dh, _, _ = inv_tables(ivd); dets = (dfh, dh)
+    tbl = ln_table([x.real for x in nz] + [x.imag for x in nz], dets)
+    v = f"(Build_vfit Q {cbool(use_mask)} {cpl(d)} {cpl(nz)} {cpl(m)} {'None' if ivd is None else '(Some ' + cinv(ivd) + ')'})"
+    pl = lambda zs: clist([ctup([cq(fq(a)), cq(fq(b))]) for a, b in zs])
+    out = (f"(Build_visout {pl(o['residual'])} {pl(o['normres'])} {pl(o['chimap'])} {cq(fq(o['chi2']))} "
+           f"{cres(tuple(o['redchi2']), lambda x: cq(fq(x)))} {cq(fq(o['nn']))} {cq(fq(o['ll']))} {copt(o['llreg'], lambda x: cq(fq(x)))} "
+           f"{copt(o['evidence'], lambda x: cq(fq(x)))} {copt(o['fom'], lambda x: cq(fq(x)))} "
+           f"{clist([ctup([cx(a), cx(b)]) for a, b in o['snr']])})")
+    coq = f"(KVis {ctbl(tbl)} TP {v} {out})"
+    # Python side: the definitions over the 2 n real components, ln by math.log
+    comp = lambda zs: [Fraction(x.real) for x in zs] + [Fraction(x.imag) for x in zs]
+    D, N, M = comp(d), comp(nz), comp(m)
+    chi = sum(((a - b) / c) ** 2 for a, b, c in zip(D, M, N))
+    nn = sum(flog(Fraction(TWO_PI) * c * c) for c in N)
+    want = {"chi2": float(chi), "nn": nn, "ll": -0.5 * (float(chi) + nn)}
+    detail = []
+    for k, w in want.items():
+        if not (math.isfinite(o[k]) and rel_close(o[k], w)): detail.append(f"{k}: implementation {o[k]}, definition {w}")
+    return coq, not detail, detail
+
+def run_vis(inp):
+    """FitInterferometer on a real Interferometer dataset: read; the user edits visibilities in place; re-read (other order);
+    a second fit object (other model) on the same dataset"""
+    c = vis_classes(); aa = c["aa"]
+    n = len(inp["data"])
+    data = aa.Visibilities(visibilities=np.array([zc(p) for p in inp["data"]], dtype=complex))
+    noise = aa.VisibilitiesNoiseMap(visibilities=np.array([zc(p) for p in inp["noise"]], dtype=complex))
+    model = aa.Visibilities(visibilities=np.array([zc(p) for p in inp["model"]], dtype=complex))
+    ds = aa.Interferometer(data=data, noise_map=noise, uv_wavelengths=np.array([[float(k), 1.0] for k in range(n)]),
+                           real_space_mask=aa.Mask2D.all_false(shape_native=(2, 2), pixel_scales=1.0), transformer_class=c["NoTransformer"])
+    inv = None if inp["inv"] is None else make_inv(inp["inv"])
+    fit = c["HFitInterferometer"](ds, model, inversion=inv, use_mask_in_fit=inp["use_mask"])
+    coqs, outs, detail = [], [], []; py_ok = True
+    snap = lambda mo: [np.array(np.asarray(x), dtype=complex, copy=True) for x in (ds.data, ds.noise_map, mo)]
+    def step(tag, ft, mo, order=None):
+        nonlocal py_ok
+        b = snap(mo); o = observe_vis(ft, order); a = snap(mo)
+        coq, ok, det = vis_case(inp["use_mask"], b[0], b[1], b[2], inp["inv"], o)
+        coqs.append(coq); outs.append(o)
+        if not all(np.array_equal(x, y) for x, y in zip(a, b)):
+            ok = False; det.append("reading the fit modified the caller's visibilities in place")
+        if not ok: py_ok = False; detail.extend(f"[{tag}] {x}" for x in det)
+        return o
+    o1 = step("first read", fit, model)
+    bad = same_out(o1, observe_vis(fit, inp["order"]))
+    if bad: py_ok = False; detail.append("[re-read] a second read of the same fit object (other order) differs in " + ", ".join(bad))
+    for which, k, v in inp["edits"]:
+        {"data": ds.data, "noise": ds.noise_map, "model": model}[which][k] = zc(v)
+    step("read after in-place edits", fit, model, inp["order"])
+    model2 = aa.Visibilities(visibilities=np.array([zc(p) for p in inp["model2"]], dtype=complex))
+    fit2 = c["HFitInterferometer"](ds, model2, inversion=inv, use_mask_in_fit=not inp["use_mask"])
+    b = snap(model2); o = observe_vis(fit2)
+    coq, ok, det = vis_case(not inp["use_mask"], b[0], b[1], b[2], inp["inv"], o)
+    coqs.append(coq); outs.append(o)
+    if not ok: py_ok = False; detail.extend(f"[second fit object on the same dataset] {x}" for x in det)
+    return {"coq": coqs[0], "extra_coq": coqs[1:], "out": outs, "py_ok": py_ok, "nontrivial": True,
+            "detail": "; ".join(detail) or None, "kind": "vis/" + ("mask" if inp["use_mask"] else "nomask") + ("/inv" if inv is not None else "")}
+
+def run_utilc(inp):
+    from autoarray.fit import fit_util as fu
+    r = np.array([zc(p) for p in inp["r"]], dtype=complex); n = np.array([zc(p) for p in inp["n"]], dtype=complex)
+    rb, nb = r.copy(), n.copy()
+    z = lambda a: [[float(x.real), float(x.imag)] for x in np.asarray(a, dtype=complex).ravel()]
+    o = {}
+    o["nres"] = z(fu.normalized_residual_map_complex_from(residual_map=r, noise_map=n))
+    cm = fu.chi_squared_map_complex_from(residual_map=r, noise_map=n)
+    o["cmap"] = z(cm); o["chi2"] = float(fu.chi_squared_complex_from(chi_squared_map=cm))
+    o["nn"] = float(fu.noise_normalization_complex_from(noise_map=n))
+    unchanged = np.array_equal(r, rb) and np.array_equal(n, nb) and z(cm) == o["cmap"]
+    tbl = ln_table([x.real for x in n] + [x.imag for x in n])
+    pl = lambda zs: clist([ctup([cq(fq(a)), cq(fq(b))]) for a, b in zs])
+    coq = f"(KUtilC {ctbl(tbl)} TP {cpl(r)} {cpl(n)} (Build_cutilout {pl(o['nres'])} {pl(o['cmap'])} {cq(fq(o['chi2']))} {cq(fq(o['nn']))}))"
+    nn = sum(math.log(2 * math.pi * x * x) for p in inp["n"] for x in p)
+    py_ok = rel_close(o["nn"], nn) and unchanged
+    return {"coq": coq, "out": o, "py_ok": py_ok, "nontrivial": True, "kind": "utilc",
+            "detail": None if py_ok else ("a fit_util function modified one of its arguments in place" if not unchanged
+                                          else f"noise normalization {o['nn']} vs {nn}")}
+
+def run_utilcov(inp):
+    from autoarray.fit import fit_util as fu
+    r = np.array(inp["r"], dtype=float); Ci = np.array(inp["Ci"], dtype=float)
+    rb, Cb = r.copy(), Ci.copy()
+    chi = float(fu.chi_squared_with_noise_covariance_from(residual_map=r, noise_covariance_matrix_inv=Ci))
+    unchanged = np.array_equal(r, rb) and np.array_equal(Ci, Cb)
+    coq = f"(KUtilCov {ql(inp['r'])} {qm(inp['Ci'])} {cq(fq(chi))})"
+    return {"coq": coq, "out": chi, "py_ok": unchanged, "nontrivial": True, "kind": "utilcov",
+            "detail": None if unchanged else "a fit_util function modified one of its arguments in place"}
 
 _COUNTS = {"impl_exceptions": 0}
 def run_case(inp):
     op = inp["op"]
-    f = {"fit": run_fit, "inv": run_inv, "util": run_util, "compose": run_compose}[op]
+    f = {"fit": run_fit, "inv": run_inv, "util": run_util, "compose": run_compose, "hist": run_hist, "invhist": run_invhist,
+         "invp": run_invp, "cov": run_cov, "vis": run_vis, "utilc": run_utilc, "utilcov": run_utilcov}[op]
     try:
         return f(inp)
     except Exception as e:   # the implementation refused an in-scope input: reported as a failing case
         _COUNTS["impl_exceptions"] += 1
+        import traceback
         return {"coq": None, "out": None, "py_ok": False, "nontrivial": True, "kind": op + "/exception",
-                "detail": f"{type(e).__name__}: {e}"}
+                "detail": f"{type(e).__name__}: {e} :: {traceback.format_exc()[-600:]}"}
 
 def extra_evidence():
     return {"impl_exceptions": _COUNTS["impl_exceptions"]}
